@@ -405,6 +405,48 @@ func properties() map[string]*PropertyDef {
 		LevelNote:   "see assumptions; trusted: go/ssa lowering, govc encoding, solvers",
 		Technique:   "contract-based deductive verification (govc): postconditions over uninterpreted acceptance/value functions of the standard-library parsers, WP over go/ssa, z3/cvc5",
 	})
+	ps = append(ps, &PropertyDef{
+		ID:       "C20",
+		Patterns: []string{"./netutil/httputil"},
+		Funcs: []string{"netutil/httputil.Wrap", "netutil/httputil.(*CodeRecorderResponseWriter).WriteHeader", "netutil/httputil.(*CodeRecorderResponseWriter).Write",
+			"netutil/httputil.(*CodeRecorderResponseWriter).SetImplicitSuccess", "netutil/httputil.(*CodeRecorderResponseWriter).Reset", "netutil/httputil.(*CodeRecorderResponseWriter).Code"},
+		Kinds: map[string]bool{"ensures": true, "invariant": true, "requires": true, "frame": true, "nil": true, "bounds": true, "variant": true},
+		NeedsClauses: map[string][]string{
+			"netutil/httputil.Wrap": {"one_call_each", "nested_in_order", "outermost_returned", "count", "nested", "current"},
+			"netutil/httputil.(*CodeRecorderResponseWriter).WriteHeader":        {"recorded", "forwarded"},
+			"netutil/httputil.(*CodeRecorderResponseWriter).Write":              {"forwarded"},
+			"netutil/httputil.(*CodeRecorderResponseWriter).SetImplicitSuccess": {"implicit_200"},
+			"netutil/httputil.(*CodeRecorderResponseWriter).Reset":              {"reset"},
+		},
+		Assumptions: []string{
+			"PARTIAL CLAIM. Decided (sequential, for all inputs): Wrap applies the middlewares last to first, each exactly once and each to the result of the previous application, and returns the outermost result, so that a request enters m1 first and reaches h last provided each middleware's handler calls the handler it wrapped; the status-code recorder records exactly the code passed to WriteHeader, forwards WriteHeader and Write unchanged to the wrapped writer, reports 200 when no code was set and is cleared by Reset",
+			"NOT decided - outside what contracts on sequential code can express or reach: per-request isolation of LogMiddleware under concurrent requests (objects recycled through sync.Pool, interleavings), and the request/logger plumbing of its handler (net/http.Request copying, log/slog handler internals, generic sync.Pool wrappers would all have to be specified first); that the 'finished' record carries the recorded code is by the deferred-call order of the handler closure, not an obligation",
+			"assumed: interface methods (Middleware.Wrap, ResponseWriter.*) do not modify the recorder's fields",
+		},
+		Explanation: "ghost event log over the real Wrap loop; per-method postconditions with frame conditions on the recorder",
+		LevelText:   "proof (partial): middleware nesting order and the status-code recorder for all inputs; concurrency and the LogMiddleware handler not decided",
+		LevelNote:   "see assumptions; trusted: go/ssa lowering, govc encoding, solvers",
+		Technique:   "contract-based deductive verification (govc): ghost event log, loop invariants, frame conditions, WP over go/ssa, z3/cvc5",
+	})
+	ps = append(ps, &PropertyDef{
+		ID:       "C19",
+		Patterns: []string{"./logutil/slogutil"},
+		Funcs:    []string{"logutil/slogutil.(*JSONHybridHandler).Enabled", "logutil/slogutil.newJSONHybridMessage", "logutil/slogutil.(*JSONHybridHandler).WithAttrs"},
+		Kinds:    map[string]bool{"ensures": true, "requires": true, "frame": true, "nil": true, "bounds": true},
+		NeedsClauses: map[string][]string{
+			"logutil/slogutil.(*JSONHybridHandler).Enabled":   {"at_least_configured"},
+			"logutil/slogutil.newJSONHybridMessage":           {"severity", "message_kept"},
+			"logutil/slogutil.(*JSONHybridHandler).WithAttrs": {"derived", "attrs_appended", "parent_unchanged", "frame/"},
+		},
+		Assumptions: []string{
+			"PARTIAL CLAIM. Decided (sequential, all inputs): Enabled(l) holds iff l is at least the configured level; the emitted object's severity is ERROR exactly for levels >= slog.LevelError and NORMAL otherwise and the message bytes are passed on unchanged; WithAttrs returns a new handler that shares level, encoder, pool and mutex, carries len(parent attrs)+len(new attrs) attributes and writes to no memory that existed before the call - in particular not to the parent's attribute array, so attributes of one derived handler cannot show up in a sibling",
+			"NOT decided: Handle itself (one line per record, message == the slog.TextHandler line with the accumulated attributes, newline stripped) - slog.Record is an opaque library value to the generator and the step order would have to be stated over assumed contracts of log/slog, bytes.Buffer, encoding/json and sync.Pool; that lines of concurrent records never interleave (mutex around Encode; interleavings are outside contracts on sequential code); the JSON encoder's output format",
+		},
+		Explanation: "per-function postconditions; the frame condition 'modifies nothing' on WithAttrs is what excludes the append-into-shared-capacity bug",
+		LevelText:   "proof (partial): level filter, severity mapping and attribute isolation of derived handlers; Handle and concurrency not decided",
+		LevelNote:   "see assumptions; trusted: go/ssa lowering, govc encoding, solvers",
+		Technique:   "contract-based deductive verification (govc): postconditions and frame conditions, WP over go/ssa, z3/cvc5",
+	})
 	out := map[string]*PropertyDef{}
 	for _, p := range ps {
 		out[p.ID] = p
